@@ -387,6 +387,10 @@ func kindName(b byte) string { return fmt.Sprintf("%q", rune(b)) }
 // kindCases collects the constant case values of all switches in f whose tag has type jsontext.Kind.
 // It returns the union and, for the largest such switch, whether its default clause fails.
 func kindCases(p *Program, f *FuncInfo) (union map[byte]bool, defaultFails bool, nSwitches int) {
+	return kindCasesDepth(p, f, 0)
+}
+
+func kindCasesDepth(p *Program, f *FuncInfo, depth int) (union map[byte]bool, defaultFails bool, nSwitches int) {
 	info := f.Info()
 	kindT := p.NamedType("jsontext", "Kind")
 	union = map[byte]bool{}
@@ -439,6 +443,20 @@ func kindCases(p *Program, f *FuncInfo) (union map[byte]bool, defaultFails bool,
 				for _, call := range findAll[*ast.CallExpr](body) {
 					if IsBuiltin(info, call, "panic") {
 						defaultFails = true
+					}
+				}
+				// the default arm may hand the remaining kinds to a private helper with its own kind switch
+				if !defaultFails && depth < 2 {
+					for _, call := range findAll[*ast.CallExpr](body) {
+						if h := p.InlineAny(f)(call); h != nil {
+							hu, hf, hn := kindCasesDepth(p, h, depth+1)
+							if hn > 0 {
+								for k := range hu {
+									union[k] = true
+								}
+								defaultFails = hf
+							}
+						}
 					}
 				}
 			}
